@@ -90,6 +90,49 @@ pub fn useless_frame(rng: &mut Rng) -> GenFrame {
     }
 }
 
+/// Frames every property of the session family must survive and frame correctly (collected from the seeded
+/// mutations of all of them): payloads at the size limit on the variable-size types, every one-byte payload and every
+/// correctly framed prefix of a valid payload for each accepted type, special float words in a Target.
+pub fn hostile_corpus(rng: &mut Rng) -> Vec<GenFrame> {
+    let mut v = vec![];
+    for ty in [0x10u8, 0x20] {
+        for len in [257usize, 1022, 1023, 1024] {
+            let mut p = vec![b'a'; len];
+            p[0] = if ty == 0x10 { 0x10 } else { 0x00 };
+            v.push(GenFrame { bytes: frame(ty, &p), class: "at-size-limit" });
+        }
+    }
+    let valid: Vec<(u8, Vec<u8>)> = vec![
+        (0x10, vec![0x10, b'a', b'b']),
+        (0x43, vec![1, 2, 0x05, 0xDC, 0x10]),
+        (0x20, vec![0x10, 2, 0, 0, 0, 100, 0, 4, 0xFF, 0x38]),
+        (0x20, vec![0x05, 0x7F, 0xFF]),
+        (0x44, { let mut p = vec![0u8; 25]; p[0] = 0x3F; p[1] = 0x80; p }),
+        (0x45, vec![0x1E, 1]),
+    ];
+    for (ty, payload) in &valid {
+        for k in 1..payload.len() {
+            v.push(GenFrame { bytes: frame(*ty, &payload[..k]), class: "payload-prefix" });
+        }
+    }
+    for ty in [0x10u8, 0x43, 0x20, 0x44, 0x45] {
+        for b in 0..=255u8 {
+            if b % 4 == 0 || b < 0x40 || b > 0xF0 {
+                v.push(GenFrame { bytes: frame(ty, &[b]), class: "one-byte" });
+            }
+        }
+        v.push(GenFrame { bytes: frame(ty, &[rng.byte(), rng.byte()]), class: "two-byte" });
+    }
+    for w in [0x7FC0_0000u32, 0x7F80_0000, 0xFF80_0000, 0xFFFF_FFFF] {
+        for pos in [0usize, 3, 5] {
+            let mut p = vec![0u8; 25];
+            p[4 * pos..4 * pos + 4].copy_from_slice(&w.to_be_bytes());
+            v.push(GenFrame { bytes: frame(0x44, &p), class: "special-float" });
+        }
+    }
+    v
+}
+
 pub fn rand_frame(rng: &mut Rng) -> GenFrame {
     match rng.below(10) {
         0 => session_frame(rng.below(32) as u8, "cli"),
